@@ -66,8 +66,10 @@ impl<R: Req> Endpoint<R> {
     { unimplemented!() }
 }
 
+// R5 target (sizes proved-by: c01_layout_table)
 #[verifier::external_body]
 pub fn size_of_<T: ByteValued>() -> (r: usize) ensures r as nat == T::spec_size(), r <= 4096 { unimplemented!() }
+// R7 target: REQUIRES is the in-bounds condition of the unsafe read; the value is the spec decoding of the bytes (proved-by: c01_body_bytes_* )
 #[verifier::external_body]
 pub fn read_unaligned_<T: ByteValued>(buf: &[u8]) -> (r: T)
     requires buf@.len() >= T::spec_size()
@@ -85,6 +87,7 @@ pub struct BackendInternal {
 // `Backend { inner: Arc<Mutex<BackendInternal>> }` (R8; assumed: A-LOCK)
 pub struct Backend { pub inner_: BackendInternal, pub acq: Ghost<nat> }
 impl Backend {
+    // R8 target: self.node.lock().unwrap() (assumed: A-LOCK)
     #[verifier::external_body]
     pub fn lock_inner(&mut self) -> (g: &mut BackendInternal)
         ensures *g == old(self).inner_, final(self).inner_ == *final(g), final(self).acq@ == old(self).acq@ + 1
@@ -120,16 +123,22 @@ pub open spec fn proxy_outcome(o: BackendInternal, n: BackendInternal, f: Frame,
 pub enum Call2 { ConfigChange, Add(VhostUserSharedMsg), Remove(VhostUserSharedMsg), Lookup(VhostUserSharedMsg, int), Map(VhostUserMMap, int), Unmap(VhostUserMMap) }
 pub struct HandlerStub2 { pub trace: Ghost<Seq<Call2>>, pub rets: Ghost<Seq<HandlerResult<u64>>> }
 impl HandlerStub2 {
+    // assumed: ENV-HANDLER the device handler is an ARBITRARY implementation of its trait (any result / return value); the stub only records the call in the ghost trace
     #[verifier::external_body] pub fn handle_config_change(&mut self) -> (r: HandlerResult<u64>)
         ensures final(self).trace@ == old(self).trace@.push(Call2::ConfigChange), final(self).rets@ == old(self).rets@.push(r) { unimplemented!() }
+    // assumed: ENV-HANDLER the device handler is an ARBITRARY implementation of its trait (any result / return value); the stub only records the call in the ghost trace
     #[verifier::external_body] pub fn shared_object_add(&mut self, uuid: &VhostUserSharedMsg) -> (r: HandlerResult<u64>)
         ensures final(self).trace@ == old(self).trace@.push(Call2::Add(*uuid)), final(self).rets@ == old(self).rets@.push(r) { unimplemented!() }
+    // assumed: ENV-HANDLER the device handler is an ARBITRARY implementation of its trait (any result / return value); the stub only records the call in the ghost trace
     #[verifier::external_body] pub fn shared_object_remove(&mut self, uuid: &VhostUserSharedMsg) -> (r: HandlerResult<u64>)
         ensures final(self).trace@ == old(self).trace@.push(Call2::Remove(*uuid)), final(self).rets@ == old(self).rets@.push(r) { unimplemented!() }
+    // assumed: ENV-HANDLER the device handler is an ARBITRARY implementation of its trait (any result / return value); the stub only records the call in the ghost trace
     #[verifier::external_body] pub fn shared_object_lookup(&mut self, uuid: &VhostUserSharedMsg, fd: &File) -> (r: HandlerResult<u64>)
         ensures final(self).trace@ == old(self).trace@.push(Call2::Lookup(*uuid, fd.id@)), final(self).rets@ == old(self).rets@.push(r) { unimplemented!() }
+    // assumed: ENV-HANDLER the device handler is an ARBITRARY implementation of its trait (any result / return value); the stub only records the call in the ghost trace
     #[verifier::external_body] pub fn shmem_map(&mut self, req: &VhostUserMMap, fd: &File) -> (r: HandlerResult<u64>)
         ensures final(self).trace@ == old(self).trace@.push(Call2::Map(*req, fd.id@)), final(self).rets@ == old(self).rets@.push(r) { unimplemented!() }
+    // assumed: ENV-HANDLER the device handler is an ARBITRARY implementation of its trait (any result / return value); the stub only records the call in the ghost trace
     #[verifier::external_body] pub fn shmem_unmap(&mut self, req: &VhostUserMMap) -> (r: HandlerResult<u64>)
         ensures final(self).trace@ == old(self).trace@.push(Call2::Unmap(*req)), final(self).rets@ == old(self).rets@.push(r) { unimplemented!() }
 }
